@@ -19,7 +19,7 @@ import random
 import zlib
 
 from .. import common, tlc, tlaval
-from .c17 import fix_coverage, require_actions, cfg_text, dump_blocks, J
+from .c17 import fix_coverage, require_actions, cfg_text, dump_blocks, J, guard
 
 SAMPLES = ["tests/sample_codec_features.csv", "tests/sample_codec_features_invalid.csv", "docs/source/_static/user_guide/sample_codec_features.csv"]
 SAT = 1 << 30
@@ -462,7 +462,11 @@ def run(ctx):
     nstress = ctx.pick(1500, 20000)
     sev = common.pmap(stress_case, [(i + 1, ctx.seed * 1000003 + i) for i in range(nstress)])
     sdis, sbad = judge(ctx, sev, tables, "trace validation of CSV-syntax stress (CodecFeaturesCsvTrace)")
-    st = selftest_binding(tables)
+    try:
+        st = selftest_binding(tables)
+    except RuntimeError as e:
+        guard(ctx, False, str(e))
+        st = {"not_demonstrable": str(e)}
     allev = events + sev
     outcome = {}
     for e in allev:
@@ -473,11 +477,9 @@ def run(ctx):
         for m in e["case"]["hist"]:
             k = m.get("k") or m["s"][0]
             classes[k] = classes.get(k, 0) + 1
-    if outcome.get("none", 0) == 0 or outcome.get("invalid", 0) == 0:
-        raise RuntimeError("vacuity: outcomes %r" % (outcome,))
+    guard(ctx, outcome.get("none", 0) > 0 and outcome.get("invalid", 0) > 0, "vacuity: outcomes %r" % (outcome,))
     nonbase_ok = sum(1 for e in events if e["exc"] == "none" and e["case"]["hist"])
-    if nonbase_ok == 0:
-        raise RuntimeError("vacuity: no mutant was accepted, the domain clauses were never evaluated on a mutant")
+    guard(ctx, nonbase_ok > 0, "vacuity: no mutant was accepted, the domain clauses were never evaluated on a mutant")
     small = lambda e: {"case": e["case"], "pred": e["pred"], "exc": e["exc"], "columns_returned": len(e["cols"])}
     ctx.coverage.update(
         {
